@@ -229,6 +229,24 @@ func (p *Path) feasible() bool {
 		}
 		pol[k] = c.Val
 	}
+	// a nil slice / map has length zero
+	for _, c := range p.conds {
+		if !c.Val || c.Pred.Op != "binop" || c.Pred.S != "==" {
+			continue
+		}
+		for i := 0; i < 2; i++ {
+			if c.Pred.Args[i].Op != "nil" {
+				continue
+			}
+			l := tLen(c.Pred.Args[1-i])
+			if v, ok := pol[tEq(tInt(0), l).String()]; ok && !v {
+				return false
+			}
+			if v, ok := pol[tLt(tInt(0), l).String()]; ok && v {
+				return false
+			}
+		}
+	}
 	// one term equal to two different constants
 	eqc := map[string]string{}
 	for _, c := range p.conds {
